@@ -1,3 +1,4 @@
+\* generic alphabet, length 3 (the driver writes one cfg per profile, see harness/c03_roundtrip.py)
 CONSTANTS
   Mode = "text"
   Dollars = {"$PROBLEM", "$THETA", "$THE", "$EST", "$PK", "$FOO"}
